@@ -40,6 +40,16 @@ def real(x):
     return x
 
 
+def untraced(fn, *a, **kw):
+    """run harness bookkeeping (never repo code) on concrete data without the symbolic tracer"""
+    if _MODE["symbolic"]:
+        from crosshair.core_and_libs import NoTracing
+
+        with NoTracing():
+            return fn(*a, **kw)
+    return fn(*a, **kw)
+
+
 def deep_real(x):
     if _MODE["symbolic"]:
         from crosshair.core import deep_realize
@@ -133,7 +143,7 @@ class Claim(object):
 
     def check_pre(self, kwargs):
         for p in self.pre:
-            names = inspect.signature(p).parameters
+            names = [n for n, prm in inspect.signature(p).parameters.items() if prm.default is inspect.Parameter.empty]
             if not p(**{k: kwargs[k] for k in names}):
                 return False
         return True
